@@ -7,7 +7,7 @@ Require Import ExtrOcamlBasic ExtrOcamlString.
 Extraction Language OCaml.
 Extraction "../ocaml/c01/model.ml"
   ser_cell deser_cell ser_value deser_value pad pad_cell wf wf_cell wf_type
-  known_class known_class_cell known_class_of cells_hole cells_trailing_empty
+  known_class known_class_cell known_class_of cells_hole
   ser_vector_cells ser_sequence_cells
   enc_spec enc_cell_spec conforms_ok
   uvint_encode uvint_decode vint_encode vint_decode zigzag_encode zigzag_decode
